@@ -131,6 +131,9 @@ func interp(script []Step, skipUngiven bool) (obs []Obs) {
 		if i == 4 {
 			return handle4
 		}
+		if i == 0 && caseSerial%3 == 0 {
+			return vlib.ValueWriter{W: pool[0]} // a writer of a value type: every operation gets another (equal) copy
+		}
 		if i == 2 && caseSerial%2 == 1 {
 			return handle2 // the level-settable member behind the package's wrapper: it must still be told the severity
 		}
